@@ -22,6 +22,7 @@ Apply(s, e) ==
          IF e.ret = "record"
          THEN LET ok == s.live /\ s.todo # <<>> /\ RecordOK(s.fmt, Head(s.todo), e.rec, s.K) IN
               [ok |-> ok, st |-> IF ok THEN [s EXCEPT !.todo = Tail(s.todo)] ELSE s,
+               note |-> IF ok /\ ~RefsOK(Head(s.todo), e.rec) THEN "TRANSFAC references differ from the RN/RX/RT/RL blocks of the file" ELSE "",
                exp |-> IF s.todo = <<>> THEN [why |-> "extra_record"]
                        ELSE [why |-> "record_differs", id |-> Head(s.todo).id, left |-> Len(s.todo),
                              m |-> ExpectedMatrix(Head(s.todo), s.K, "0")]]
